@@ -10,7 +10,8 @@ for m in sorted(glob.glob(os.path.join(V, "seeded", "*", "meta.json"))):
     files = sorted(set(l[6:] for l in patch.splitlines() if l.startswith("+++ b/")))
     needs = " ".join(d.get("needs", "").split())[:300]
     det = d.get("detected_by", {})
-    rows.append((name, d["property"], ", ".join(files), ", ".join("%s:%s" % (k, "caught" if v else "MISSED") for k, v in sorted(det.items())), needs))
+    rows.append((name, d["property"], ", ".join(files), ", ".join("%s:%s" % (k, "caught" if v else "MISSED") for k, v in sorted(det.items()))
+                 + (" (after the check was strengthened; missed at first trial)" if d.get("strengthened_after_miss") else ""), needs))
 with open(os.path.join(V, "seeded", "SUMMARY.md"), "w") as f:
     f.write("# Seeded property-breaking changes and the checks that catch them\n\n")
     f.write("| seeded | breaks | files | quick-tier checks run against it | what it needs to manifest |\n|---|---|---|---|---|\n")
